@@ -1,4 +1,5 @@
 import H4.Chunk
+import H4.Gen.Fn.Hchunks
 import H4.Driver.Util
 namespace H4.Driver
 open H4.Chunk
@@ -19,6 +20,48 @@ def flattenElem (e : Elem) : Elem :=
 def showPieces (ps : List Piece) : String :=
   if ps.isEmpty then "-" else
   ",".intercalate (ps.map fun p => s!"{p.pos}:{p.chunk}:{p.seek}:{p.size}")
+
+/-! The functions TRANSLATED from the current C text of hchunks.c (`H4.Gen.Fn.Hchunks`, gen/c2lean.py) are run on the same
+    arguments as the hand-written model: when the two differ (or the translated code reports undefined behaviour / fuel
+    exhaustion) the answer carries a ` GEN=…` suffix, which the comparison with the real library's answer reports as a DIFF.
+    This validates the translator itself by differential testing against the compiled C. -/
+namespace GenChunk
+open H4.Gen.Fn.Hchunks
+def il (l : List Nat) : List Int := l.map Int.ofNat
+def field (dd : List DimRec) (f : DimRec → Nat) : List Int := dd.map fun d => Int.ofNat (f d)
+def showI (l : List Int) : String := if l.isEmpty then "-" else ",".intercalate (l.map toString)
+def tag (model : String) (ub oof : Bool) (gen : String) : String :=
+  if ub then s!"{model} GEN=ub" else if oof then s!"{model} GEN=oof" else if gen == model then model else s!"{model} GEN={gen}"
+def zeros (n : Nat) : List Int := List.replicate n 0
+def ucis (dd : List DimRec) (nt sloc : Nat) (model : String) : String :=
+  let n := dd.length
+  let s := update_chunk_indices_seek (n + 1) sloc n nt (zeros n) (zeros n) (field dd (·.dimLength)) (field dd (·.chunkLength))
+  tag model s.ub s.oof s!"{showI s.sbi} {showI s.spb}"
+def c2a (dd : List DimRec) (sbi spb : List Nat) (model : String) : String :=
+  let n := dd.length
+  let s := compute_chunk_to_array (n + 1) (il sbi) (il spb) (zeros n) n (field dd (·.chunkLength)) (field dd (·.numChunks)) (field dd (·.lastChunkLength))
+  tag model s.ub s.oof (showI s.array_indices)
+def a2s (dd : List DimRec) (nt : Nat) (arr : List Nat) (model : String) : String :=
+  let n := dd.length
+  let s := compute_array_to_seek (n + 1) [0] (il arr) nt n (field dd (·.dimLength))
+  tag model s.ub s.oof (showI s.user_seek)
+def sic (dd : List DimRec) (nt : Nat) (spb : List Nat) (model : String) : String :=
+  let n := dd.length
+  let s := calculate_seek_in_chunk (n + 1) [0] n nt (il spb) (field dd (·.chunkLength))
+  tag model s.ub s.oof (showI s.chunk_seek)
+def usp (dd : List DimRec) (nt cseek : Nat) (model : String) : String :=
+  let n := dd.length
+  let s := update_seek_pos_chunk (n + 1) cseek n nt (zeros n) (field dd (·.chunkLength))
+  tag model s.ub s.oof (showI s.spb)
+def cnum (dd : List DimRec) (sbi : List Nat) (model : String) : String :=
+  let n := dd.length
+  let s := calculate_chunk_num (n + 1) [0] n (il sbi) (field dd (·.numChunks))
+  tag model s.ub s.oof (showI s.chunk_num)
+def cfc (dd : List DimRec) (nt len done : Nat) (sbi spb : List Nat) (model : String) : String :=
+  let n := dd.length
+  let s := calculate_chunk_for_chunk (n + 1) [0] n nt len done (il sbi) (il spb) (field dd (·.numChunks)) (field dd (·.lastChunkLength)) (field dd (·.chunkLength))
+  tag model s.ub s.oof (showI s.chunk_size)
+end GenChunk
 
 private def geom (ds cs : String) : Option (List DimRec) := do
   let d ← natList ds
@@ -43,32 +86,32 @@ def stepChunk (st : ChunkSt) (args : List String) : ChunkSt × String :=
     match geom ds cs, parseNat nt, parseNat sloc with
     | some dd, some nt, some sloc =>
       let r := updateChunkIndicesSeek dd nt sloc
-      (st, s!"{showNatList r.1} {showNatList r.2}")
+      (st, GenChunk.ucis dd nt sloc s!"{showNatList r.1} {showNatList r.2}")
     | _, _, _ => bad
   | ["c2a", ds, cs, sbi, spb] =>
     match geom ds cs, natList sbi, natList spb with
-    | some dd, some sbi, some spb => (st, showNatList (computeChunkToArray dd sbi spb))
+    | some dd, some sbi, some spb => (st, GenChunk.c2a dd sbi spb (showNatList (computeChunkToArray dd sbi spb)))
     | _, _, _ => bad
   | ["a2s", ds, cs, nt, arr] =>
     match geom ds cs, parseNat nt, natList arr with
-    | some dd, some nt, some arr => (st, toString (computeArrayToSeek dd nt arr))
+    | some dd, some nt, some arr => (st, GenChunk.a2s dd nt arr (toString (computeArrayToSeek dd nt arr)))
     | _, _, _ => bad
   | ["sic", ds, cs, nt, spb] =>
     match geom ds cs, parseNat nt, natList spb with
-    | some dd, some nt, some spb => (st, toString (calculateSeekInChunk dd nt spb))
+    | some dd, some nt, some spb => (st, GenChunk.sic dd nt spb (toString (calculateSeekInChunk dd nt spb)))
     | _, _, _ => bad
   | ["usp", ds, cs, nt, cseek] =>
     match geom ds cs, parseNat nt, parseNat cseek with
-    | some dd, some nt, some cseek => (st, showNatList (updateSeekPosChunk dd nt cseek))
+    | some dd, some nt, some cseek => (st, GenChunk.usp dd nt cseek (showNatList (updateSeekPosChunk dd nt cseek)))
     | _, _, _ => bad
   | ["cnum", ds, cs, sbi] =>
     match geom ds cs, natList sbi with
-    | some dd, some sbi => (st, toString (calculateChunkNum dd sbi))
+    | some dd, some sbi => (st, GenChunk.cnum dd sbi (toString (calculateChunkNum dd sbi)))
     | _, _ => bad
   | ["cfc", ds, cs, nt, len, done, sbi, spb] =>
     match geom ds cs, parseNat nt, parseNat len, parseNat done, natList sbi, natList spb with
     | some dd, some nt, some len, some done, some sbi, some spb =>
-      (st, toString (calculateChunkForChunk dd nt len done sbi spb))
+      (st, GenChunk.cfc dd nt len done sbi spb (toString (calculateChunkForChunk dd nt len done sbi spb)))
     | _, _, _, _, _, _ => bad
   | ["walk", ds, cs, nt, pos, len] =>
     match geom ds cs, parseNat nt, parseNat pos, parseNat len with
